@@ -199,7 +199,9 @@ static void case_history(Rng& rng, uint64_t index)
 			double got = U.obj.Integrate(x1, x2);
 			Interpolation F = fresh(op);
 			double unit = F.Integrate(x1, x2);
-			double tol	= K_VAL * EPS * std::fabs(P) * integrate_scale(T, x1, x2);
+			// rounding scale of the integral plus that of the two numbers compared (this clause is about the history, not about how accurate the integral
+			// is - that is C08's business: a used object and a fresh one must agree, whatever they both return)
+			double tol	= K_VAL * EPS * std::fabs(P) * integrate_scale(T, x1, x2) + 4 * EPS * std::max(std::fabs(got), std::fabs(P * unit));
 			if(!k1 && !k2 && P == 1.0)
 				require("integrate-bit-identical-to-fresh-object-off-knots", same_bits(got, unit), [&] { return J().d("x1", x1).d("x2", x2).d("used", got).d("fresh", unit).i("op", (long long) op); });
 			else
